@@ -172,7 +172,221 @@ def gen_overlap(rng, tier):
     return {"header": " ".join(words), "ops": ops}
 
 
+# --- entry points (notes/strengthen-reconnect-w5.md): construction paths, accessors, several layer values
+
+# text the scripted error kinds 4..15 display after `ierr<kind>:<serial>` (harness `kind_text`, Lean `kindText`)
+KIND_TEXT = {4: "Broken pipe (os error 32)", 5: "Connection reset by peer (os error 104)", 6: "connection aborted",
+             7: "Transport endpoint is not connected (os error 107)", 8: "Connection refused (os error 111)",
+             9: "connection timed out", 10: "disconnected", 11: "BROKEN PIPE", 12: "connection  reset",
+             13: "host unreachable", 14: "upstream said: Connection Refused", 15: "brokenpipe"}
+# `ReconnectConfigBuilder::connection_errors_only` (config.rs:332-343, and its doc comment): the lower-cased Display text
+# contains one of these
+CONN_PHRASES = ("broken pipe", "connection reset", "connection aborted", "not connected", "connection refused")
+
+
+def conn_accepts(kind):
+    text = ("ierr%d:0 %s" % (kind, KIND_TEXT.get(kind, ""))).lower()
+    return any(p in text for p in CONN_PHRASES)
+
+
+CONN_YES = [k for k in range(16) if conn_accepts(k)]        # 4 5 6 7 8 11 14
+CONN_NO = [k for k in range(16) if not conn_accepts(k)]
+DEFAULT_CTORS = ("default", "with_defaults", "layerdefault")
+
+
+def _remap_conn(rng, plan):
+    """plans for `pred=conn`: what was the reconnectable kind 1 becomes a kind whose text names a connection failure,
+    everything else a kind whose text does not (near misses included)"""
+    def kind(k):
+        return rng.choice(CONN_YES) if k == "1" else rng.choice(CONN_NO)
+    steps = []
+    for part in plan.split(","):
+        lat, out = part.split(":", 1)
+        if out.startswith("err"):
+            out = "err" + ">".join(str(kind(k)) for k in out[3:].split(">"))
+        steps.append(lat + ":" + out)
+    return ",".join(steps)
+
+
+def _decorate(rng, case):
+    """construction path of the configuration / the layer, callbacks, sub-millisecond delays, the connection_errors_only
+    predicate, several layer values made from clones of one configuration value, services of a cloned layer value, and
+    the accessors of state and configuration probed between the steps. `rng` is a private stream: the undecorated part
+    of every case is what the generator produced before this round."""
+    words = case["header"].split()
+    kv = kvs(case["header"])
+    ops = list(case["ops"])
+    r = rng.random()
+    if r < 0.12:
+        if r < 0.06:
+            words.append("ctor=" + rng.choice(DEFAULT_CTORS))
+        else:
+            # the builder's own default policy (nothing about the policy is set), through builder() or new()
+            words = [w for w in words if w.split("=")[0] not in ("policy", "d", "init", "cap", "rf", "tbl")]
+            words.append("ctor=" + rng.choice(["new", "builder"]))
+            kv = kvs(" ".join(words))
+        # the default policy waits 200, 400, … ms: stretch the time steps
+        ops = [("adv %d" % rng.choice([int(o.split()[1]) * 100, 199, 200, 201, 400, 800, 1600])) if o.startswith("adv ") else o for o in ops]
+    elif r < 0.45:
+        words.append("ctor=" + rng.choice(["new", "new", "builder"]))
+    if "max" not in kv and rng.random() < 0.4:
+        words.append("unl=1")
+    if "retry" not in kv and rng.random() < 0.3:
+        words.append("retry=1")
+    if rng.random() < 0.3:
+        words.append("cclone=1")
+    r = rng.random()
+    if r < 0.12:
+        words.append("cb=1")
+    elif r < 0.2:
+        words.append("cb=panic")
+    pol = kv.get("policy")          # None: the builder's default policy
+    if pol in ("fixed", "exp", "jitter", "custom") and rng.random() < 0.25:
+        # durations in microseconds: v ms become v*k us (k = 1000: the same delays; 999 / 1001: just below / above a tick)
+        k = rng.choice([1, 125, 250, 400, 999, 1000, 1001])
+        def scale(w):
+            if "=" not in w:
+                return w
+            a, b = w.split("=", 1)
+            if a in ("d", "init", "cap"):
+                return "%s=%d" % (a, int(b) * k)
+            if a == "tbl":
+                return "tbl=" + ",".join(str(int(x) * k) for x in b.split(","))
+            return w
+        words = [scale(w) for w in words] + ["unit=us"]
+    if pol == "jitter" and (kv.get("rf") == "0" or rng.random() < 0.3):
+        # the real `ReconnectPolicy::exponential_random` variant; its delay is not observable, hence factor 0
+        words = [w for w in words if not w.startswith("rf=")] + ["rf=0", "jv=1"]
+    if rng.random() < 0.25:
+        # the wrapped service is not always ready: it recovers for a while after every call (`rec`), and / or answers
+        # some readiness polls (of callers, of call futures after their back-off) with an error (`rdy`)
+        x = rng.random()
+        if x < 0.65:
+            words.append("rec=%d" % rng.choice([1, 1, 2, 3, 5, 8]))
+        if x >= 0.35:
+            words.append("rdy=" + "".join(rng.choice("rrre") for _ in range(rng.randint(1, 10))))
+    conn = rng.random() < 0.22
+    if conn:
+        words = [w for w in words if not w.startswith("pred=")] + ["pred=conn"]
+    multi = rng.random() < 0.3
+    lays = [0, 0, 1, 1, 2] if multi else [0]
+    lay_of = {}
+    p_probe = rng.choice([0.05, 0.15, 0.3])
+
+    def lay_word(j):
+        return " lay=%d" % j if j else ""
+
+    def extra_probe():
+        j = rng.choice(lays)
+        by = rng.choice(["", "", " by=layer", " by=svc"])
+        x = rng.random()
+        if x < 0.2:
+            return "probe attempts%s%s" % (lay_word(j), by)
+        if x < 0.35:
+            return "manual incr%s%s" % (lay_word(j), by)
+        if x < 0.5:
+            return "probe since%s%s" % (lay_word(j), by)
+        if x < 0.62:
+            return "probe config%s" % lay_word(j)
+        if x < 0.82:
+            return "probe delay a=%d%s" % (rng.choice([0, 1, 1, 2, 3, 4, 6, 9, 40]), lay_word(j))
+        return "probe pred k=%d%s" % (rng.randint(0, 15) if conn or rng.random() < 0.3 else rng.randint(0, 3), lay_word(j))
+
+    out = []
+    for o in ops:
+        w = o.split()
+        if w[0] == "arrive":
+            if conn:
+                o = " ".join(("inner=" + _remap_conn(rng, x[6:])) if x.startswith("inner=") else x for x in w)
+            j = rng.choice(lays)
+            lay_of[w[1]] = j
+            o += lay_word(j)
+            if rng.random() < 0.15:
+                o = " ".join(x for x in o.split() if not x.startswith("via=")) + " via=layerclone"
+        elif w[0] == "manual" and w[1] == "ondrop" and conn:
+            o = " ".join(("inner=" + _remap_conn(rng, x[6:])) if x.startswith("inner=") else x for x in w)
+        elif w[:2] == ["probe", "state"]:
+            # the state of the layer value the latest request went through, or of any other one
+            j = rng.choice(lays)
+            o += lay_word(j) + rng.choice(["", "", " by=layer", " by=svc"])
+        out.append(o)
+        if multi and w[:2] == ["probe", "state"] and rng.random() < 0.5:
+            out.append("probe state%s" % lay_word(rng.choice(lays)))
+        if rng.random() < p_probe:
+            out.append(extra_probe())
+    return {"header": " ".join(words), "ops": out}
+
+
+def gen_ready(rng):
+    """the wrapped service's readiness (`Phase::Readying`): 1..3 requests that fail reconnectably a few times; the inner
+    service recovers for `rec` ms after every call (shorter, equal, longer than the back-off) and answers the n-th
+    readiness poll outside a recovery with an error — a caller's (request refused, no call) or a call future's after its
+    back-off (ServiceError wrapping the readiness error); time steps around the back-off and the recovery"""
+    words = ["reconnect"]
+    mx = rng.choice([None, None, 1, 2, 3, 5])
+    if mx is not None:
+        words.append("max=%d" % mx)
+    if rng.random() < 0.7:
+        d = rng.choice([0, 0, 1, 2, 5])
+        words += ["policy=fixed", "d=%d" % d]
+        delays = [d]
+    else:
+        init, cap = rng.choice([0, 1, 2]), rng.choice([2, 4, 8])
+        words += ["policy=exp", "init=%d" % init, "cap=%d" % cap]
+        delays = sorted({min(init * 2 ** a, cap) for a in range(1, 6)})
+    if rng.random() < 0.15:
+        words.append("retry=0")
+    if rng.random() < 0.5:
+        words.append("pred=1")
+    rec = rng.choice([0, 0, 1, 2, 3, 6])
+    if rec:
+        words.append("rec=%d" % rec)
+    n_ok = rng.choice([0, 1, 1, 2, 2, 3, 4, 6])
+    if rng.random() < 0.8 or not rec:
+        words.append("rdy=" + "r" * n_ok + "e" + "".join(rng.choice("rrre") for _ in range(rng.randint(0, 4))))
+    ncall = rng.choice([1, 1, 2, 3])
+    ops = []
+    pending = list(range(1, ncall + 1))
+    arrived = []
+    steps = delays + [rec, max(0, rec - 1), rec + 1, 1, 1]
+    for _ in range(rng.randint(6, 30)):
+        r = rng.random()
+        if pending and (r < 0.25 or not arrived):
+            c = pending.pop(0)
+            k = rng.choice([1, 1, 2, 3, 4])
+            plan = ["%d:err1" % rng.choice([0, 0, 0, 1, 3]) for _ in range(k)] + [rng.choice(["0:ok", "0:ok", "2:ok", "0:err2", "0:err1"])]
+            ops.append("arrive %d inner=%s%s" % (c, ",".join(plan), rng.choice(["", "", " via=same", " via=layer", " via=layerclone", " via=swap"])))
+            arrived.append(c)
+            if rng.random() < 0.8:
+                ops.append("poll %d" % c)
+        elif r < 0.5:
+            ops.append("poll %d" % rng.choice(arrived))
+        elif r < 0.85:
+            ops.append("adv %d" % max(0, rng.choice(steps) + rng.choice([-1, 0, 0, 0, 1])))
+            if rng.random() < 0.6:
+                ops.append("settle")
+        elif r < 0.88:
+            ops.append("drop %d" % rng.choice(arrived))
+        else:
+            ops.append("settle")
+        if rng.random() < 0.5:
+            ops.append("probe state")
+    ops += ["adv %d" % (max(delays) + rec + 1), "settle", "probe state"]
+    return {"header": " ".join(words), "ops": ops}
+
+
 def gen(rng, tier):
+    # the private stream of the decoration is seeded from the generator's state, which it does not advance
+    deco = random.Random(hash(rng.getstate()[1]) ^ 0x5eed)
+    case = _gen_base(rng, tier)
+    if deco.random() >= 0.5:
+        return case
+    if deco.random() < 0.3:
+        return gen_ready(deco)
+    return _decorate(deco, case)
+
+
+def _gen_base(rng, tier):
     if rng.random() < 0.4:
         return gen_overlap(rng, tier)
     words, delays = _header(rng, False)
@@ -232,11 +446,22 @@ class Cfg:
         self.rf = int(kv.get("rf", "50"))
         self.tbl = [int(x) for x in kv.get("tbl", "1").split(",") if x != ""] or [1]
         self.retry = kv.get("retry", "1") != "0"
-        self.pred = [int(ch) for ch in kv["pred"]] if "pred" in kv else None
-        if self.policy == "default":      # ReconnectConfig::default(): exponential 100 ms .. 5 s, unlimited, retry, no predicate
-            self.policy, self.init, self.cap, self.max, self.retry, self.pred = "exp", 100, 5000, None, True, None
+        self.rec = int(kv.get("rec", "0"))              # inner service: poll_ready pending for this long after every call
+        self.conn = kv.get("pred") == "conn"           # .connection_errors_only()
+        self.pred = [int(ch) for ch in kv["pred"] if ch.isdigit()] if "pred" in kv else None
+        self.unit = 1000 if kv.get("unit") == "us" else MS      # ns per unit of d / init / cap / tbl
+        self.variant = {"none": "none", "fixed": "fixed", "custom": "custom", "jitter": "custom"}.get(self.policy, "exp")
+        if self.policy == "jitter" and kv.get("jv") == "1":
+            # the real ExponentialRandom variant with randomization factor 0: the exponential value itself
+            self.policy, self.variant = "exp", "random"
+        if self.policy == "default" or kv.get("ctor") in DEFAULT_CTORS:
+            # ReconnectConfig::default(): exponential 100 ms .. 5 s, unlimited, retry, no predicate
+            self.policy, self.init, self.cap, self.max, self.retry, self.pred, self.conn = "exp", 100, 5000, None, True, None, False
+            self.unit, self.variant = MS, "exp"
 
     def reconnectable(self, kind):
+        if self.conn:
+            return conn_accepts(kind)
         return True if self.pred is None else kind in self.pred
 
     def delay_ns_range(self, attempt):
@@ -244,11 +469,11 @@ class Cfg:
         if self.policy == "none":
             return None
         if self.policy == "fixed":
-            return (self.d * MS, self.d * MS)
+            return (self.d * self.unit, self.d * self.unit)
         if self.policy == "custom":
-            v = self.tbl[attempt % len(self.tbl)] * MS
+            v = self.tbl[attempt % len(self.tbl)] * self.unit
             return (v, v)
-        base = min(self.init * MS * 2 ** attempt, self.cap * MS)
+        base = min(self.init * self.unit * 2 ** attempt, self.cap * self.unit)
         if self.policy == "jitter":
             return (base * (100 - self.rf) // 100 - 1, base * (100 + self.rf) // 100 + 2)
         return (base, base)
@@ -360,6 +585,8 @@ def mon_delay(case, lines, meta):
     ncalls = {}
     last_done = {}
     wakes = {}
+    lay_of = _lay_of(case)
+    last_call = {}          # layer value -> instant of the latest inner call made through it (its inner service recovers from it)
     for kind, w, t in ev:
         if not w:
             continue
@@ -373,12 +600,28 @@ def mon_delay(case, lines, meta):
             c = w[1]
             i = ncalls.get(c, 0)
             ncalls[c] = i + 1
+            # after its back-off the future waits for the inner service's readiness: pending until the service has
+            # recovered from the latest call made through this layer value
+            busy_end = last_call[lay_of.get(c, 0)] + cfg.rec if cfg.rec and lay_of.get(c, 0) in last_call else None
+            last_call[lay_of.get(c, 0)] = t
             if i == 0:
                 continue
             rng_ = cfg.delay_ns_range(i)
             if rng_ is None or c not in last_done:
                 continue      # reported by mon_calls
             lo, hi = rng_
+            if busy_end is not None and busy_end > last_done[c] + _ceil_ms(max(lo, 0)):
+                # the back-off ended while the inner service was still recovering: the lower bound below still holds,
+                # the retry itself is due when the service is ready again
+                if t < busy_end:
+                    return "request %s: retry %d at t=%d although the inner service was not ready before t=%d" % (c, i, t, busy_end)
+                if t < last_done[c] + _ceil_ms(max(lo, 0)):
+                    return "request %s: retry %d at t=%d, error handled at t=%d, policy delay >= %d ns" % (c, i, t, last_done[c], lo)
+                continue
+            if hi == 0 and t > last_done[c]:
+                # nothing to wait for: the retry is made by the very poll that handled the error
+                return "request %s: retry %d only at t=%d, error handled at t=%d: the policy's delay for attempt %d is 0" % (
+                    c, i, t, last_done[c], i)
             if t < last_done[c] + _ceil_ms(max(lo, 0)):
                 return "request %s: retry %d at t=%d, error handled at t=%d, policy delay >= %d ns" % (c, i, t, last_done[c], lo)
             latest = last_done[c] + _ceil_ms(hi)
@@ -396,8 +639,21 @@ def mon_result(case, lines, meta):
     """the request returns the first success, or an error wrapping the last inner error, with the right variant"""
     cfg = Cfg(case["header"])
     calls, results = _per_caller(lines)
+    # the line before each result: a readiness failure of the inner service is logged as `ready_err` right before it
+    after_ready_err = set()
+    prev = None
+    for l in lines:
+        t, w = tparse(l)
+        if w and w[0] == "result" and prev == ["ready_err"]:
+            after_ready_err.add(w[1])
+        prev = w
     for c, (t, r) in results.items():
         cs = calls.get(c, [])
+        if r == "notready":
+            # the caller found the service not ready and made no call
+            if cs:
+                return "request %s was refused as not ready although it made %d inner calls" % (c, len(cs))
+            continue
         if not cs:
             return "request %s has a result but no inner call" % c
         last = cs[-1]
@@ -417,6 +673,12 @@ def mon_result(case, lines, meta):
             return "request %s returned %s, last inner call ended %s" % (c, r, last["out"])
         kind = int(last["out"][3:])
         wrapped = parts[-2:]
+        if c in after_ready_err and r == "err:service:inner9:0":
+            # after the back-off the inner service failed its readiness poll: ServiceError wrapping that readiness error —
+            # the last error the inner service produced. Only a request that would have retried gets here.
+            if not (cfg.reconnectable(kind) and cfg.retry and cfg.policy != "none" and (cfg.max is None or len(cs) <= cfg.max)):
+                return "request %s returned the readiness error %s although its last call's error err%d ends it (%d calls)" % (c, r, kind, len(cs))
+            continue
         if wrapped != ["inner%d" % kind, last["k"]]:
             return "request %s returned %s which does not wrap its last inner error inner%d:%s" % (c, r, kind, last["k"])
         if last["done_t"] is not None and t < last["done_t"]:
@@ -441,36 +703,88 @@ def mon_result(case, lines, meta):
     return None
 
 
+def _lay_of(case):
+    """request -> layer value it was made through (`arrive c … lay=j`; requests arriving inside a destructor: 0)"""
+    d = {}
+    for o in case["ops"]:
+        w = o.split()
+        if w and w[0] == "arrive" and len(w) > 1:
+            d.setdefault(w[1], int(kvs(o).get("lay", "0")))
+    return d
+
+
+def _probe_lay(word):
+    """'state' -> 0, 'state@2' -> 2"""
+    return int(word.split("@")[1]) if "@" in word else 0
+
+
 def mon_state(case, lines, meta):
     """published state, for any number of requests sharing it, in any interleaving: it reads connected exactly from a
     success (a request returning ok — or ending its back-off with retry_on_reconnect=false) until the next
     reconnectable inner failure is handled by any request; in particular it is connected right after a success
     whatever the other requests did in between, and not connected while a reconnectable failure is being handled
-    unless another request has brought the connection up meanwhile (TR.Props.C16.state_is_function_of_history)"""
+    unless another request has brought the connection up meanwhile (TR.Props.C16.state_is_function_of_history).
+    Per layer value: requests made through another layer value (its own ReconnectState) do not enter."""
     cfg = Cfg(case["header"])
-    up = False
-    why = "no request has succeeded yet"
+    lay_of = _lay_of(case)
+    up = {}
+    why = {}
     prev = None
     for l in lines:
         t, w = tparse(l)
         if not w:
             continue
         if w[0] == "inner_done" and w[3].startswith("err") and cfg.reconnectable(int(w[3][3:])):
-            up = False
-            why = "request %s is handling / has handled the connection failure %s of its inner call %s (t=%s) and no request has succeeded since" % (
+            j = lay_of.get(w[1], 0)
+            up[j] = False
+            why[j] = "request %s is handling / has handled the connection failure %s of its inner call %s (t=%s) and no request has succeeded since" % (
                 w[1], w[3], w[2], t)
         elif w[0] == "result" and (w[2].startswith("ok:") or w[2].startswith("err:no_retry")):
-            up = True
-            why = "request %s returned %s at t=%s and no connection failure has been handled since" % (w[1], w[2], t)
-        elif w[0] == "probe" and w[1] == "state":
+            j = lay_of.get(w[1], 0)
+            up[j] = True
+            why[j] = "request %s returned %s at t=%s and no connection failure has been handled since" % (w[1], w[2], t)
+        elif w[0] == "probe" and w[1].split("@")[0] == "state":
             st = w[3]
-            if prev is not None and prev[0] == "result" and prev[2].startswith("ok:") and st != "connected":
-                return "state() is %s right after request %s succeeded" % (st, prev[1])
-            if up and st != "connected":
-                return "state() is %s at t=%s although %s" % (st, t, why)
-            if not up and st == "connected":
-                return "state() is connected at t=%s although %s" % (t, why)
+            j = _probe_lay(w[1])
+            name = "state()" if j == 0 else "state() of layer value %d" % j
+            if prev is not None and prev[0] == "result" and prev[2].startswith("ok:") and lay_of.get(prev[1], 0) == j and st != "connected":
+                return "%s is %s right after request %s succeeded" % (name, st, prev[1])
+            if up.get(j, False) and st != "connected":
+                return "%s is %s at t=%s although %s" % (name, st, t, why[j])
+            if not up.get(j, False) and st == "connected":
+                return "%s is connected at t=%s although %s" % (name, t, why.get(j, "no request made through it has succeeded yet"))
         prev = w
+    return None
+
+
+def mon_accessors(case, lines, meta):
+    """what the configuration accessors report is the configuration the property is about: `policy().delay_for_attempt(n)`
+    is the policy's delay (nothing added, no floor), `should_reconnect` is the configured predicate (connection_errors_only:
+    the five phrases of its documentation, case-insensitively), `max_attempts()/retry_on_reconnect()/policy()` are what the
+    builder was given — also through a clone of the configuration value"""
+    cfg = Cfg(case["header"])
+    for l in lines:
+        t, w = tparse(l)
+        if len(w) < 4 or w[0] != "probe" or w[-1] == "gone":
+            continue
+        if w[1] == "delay":
+            a = int(w[2][2:])
+            rng_ = cfg.delay_ns_range(a)
+            if rng_ is None:
+                if w[-1] != "none":
+                    return "delay_for_attempt(%d) = %s ns, the policy is none" % (a, w[-1])
+            elif w[-1] == "none" or not (rng_[0] <= int(w[-1]) <= rng_[1]):
+                return "delay_for_attempt(%d) = %s ns, the configured policy's delay is %s ns" % (
+                    a, w[-1], rng_[0] if rng_[0] == rng_[1] else "%d..%d" % rng_)
+        elif w[1] == "pred":
+            k = int(w[2][2:])
+            if w[-1] != str(int(cfg.reconnectable(k))):
+                return "should_reconnect(error of kind %d%s) = %s, the configured predicate says %d" % (
+                    k, " '%s'" % KIND_TEXT[k] if k in KIND_TEXT else "", w[-1], cfg.reconnectable(k))
+        elif w[1] == "config":
+            want = "max:%s retry:%d policy:%s" % ("none" if cfg.max is None else cfg.max, cfg.retry, cfg.variant)
+            if " ".join(w[3:]) != want:
+                return "config() reports %s, the service was built with %s" % (" ".join(w[3:]), want)
     return None
 
 
@@ -486,13 +800,25 @@ def transitions(case, lines, meta=None):
     up = False
     failures = 0
     live = set()
+    seen_nonzero_attempts = False
+    prev_line = None
+    last_call_t = None
     for l in lines:
         t, w = tparse(l)
         if not w:
             continue
+        before, prev_line = prev_line, w
+        if w[0] == "ready_err":
+            tags.append("ready-err")
+            continue
+        if w[0] == "probe" and w[1].split("@")[0] == "incr":
+            seen_nonzero_attempts = True
         if w[0] == "inner_call":
             i = ncalls.get(w[1], 0)
             ncalls[w[1]] = i + 1
+            if i > 0 and cfg.rec and last_call_t is not None and t == last_call_t + cfg.rec and last_done.get(w[1], t) < t:
+                tags.append("retry-waited-for-inner-readiness")
+            last_call_t = t
             if i == 0:
                 tags.append("call-first")
                 first_call_t[w[1]] = t
@@ -515,6 +841,8 @@ def transitions(case, lines, meta=None):
         elif w[0] == "result":
             r = w[2]
             live.discard(w[1])
+            if r.startswith("ok") and seen_nonzero_attempts:
+                tags.append("success-after-application-incremented-attempts")
             if r.startswith("ok"):
                 first = ncalls.get(w[1], 0) <= 1
                 tags.append("result-ok-first" if first else "result-ok-after-retry")
@@ -529,12 +857,48 @@ def transitions(case, lines, meta=None):
                 tags.append("result-panic")
             elif r == "notready":
                 tags.append("result-notready")
+            elif r == "err:service:inner9:0" and before == ["ready_err"]:
+                tags.append("result-readiness-error-after-backoff")
             else:
                 tags.append("result-" + r.split(":")[1])
                 if r.startswith("err:no_retry"):
                     up = True
-        elif w[0] == "probe":
+        elif w[0] == "probe" and w[1].split("@")[0] == "state":
             tags.append("probe-" + w[3])
+            if "@" in w[1]:
+                tags.append("probe-state-other-layer-value")
+        elif w[0] == "probe":
+            what = w[1].split("@")[0]
+            tags.append("probe-" + what)
+            if what == "attempts" and w[-1] != "0":
+                tags.append("attempts-nonzero")
+            if what == "incr" and w[-1] not in ("0", "1"):
+                tags.append("incr-twice-without-success-between")
+            if what == "delay" and w[-1].isdigit() and int(w[-1]) % MS != 0:
+                tags.append("probe-delay-submilli")
+            if what == "delay" and w[-1] == "0":
+                tags.append("probe-delay-zero")
+            if what == "pred" and cfg.conn:
+                tags.append("probe-pred-conn-" + ("accepts" if w[-1] == "1" else "rejects"))
+            if w[-1] == "gone":
+                tags.append("probe-config-after-dropsvc")
+    hkv = kvs(case["header"])
+    if hkv.get("ctor") in DEFAULT_CTORS:
+        tags.append("ctor-default-config")
+    elif "ctor" in hkv:
+        tags.append("ctor-" + hkv["ctor"])
+    for k in ("cclone", "cb", "unit", "jv"):
+        if k in hkv:
+            tags.append("header-%s-%s" % (k, hkv[k]))
+    if cfg.conn:
+        tags.append("pred-conn")
+        for l in lines:
+            t, w = tparse(l)
+            if w and w[0] == "inner_done" and w[3].startswith("err"):
+                tags.append("conn-error-" + ("accepted" if cfg.reconnectable(int(w[3][3:])) else "rejected"))
+    lay_of = _lay_of(case)
+    if len({lay_of.get(c, 0) for c in ncalls}) > 1:
+        tags.append("requests-through-several-layer-values")
     heads = {}
     for l in lines:
         t, w = tparse(l)
@@ -570,7 +934,7 @@ def transitions(case, lines, meta=None):
             tags.append("noop-after-dropsvc")
     for o in case["ops"]:
         if o.startswith("arrive"):
-            for k in ("via=same", "via=swap", "via=layer", "keep=1", "coop=1", "burn=1"):
+            for k in ("via=same", "via=swap", "via=layer", "via=layerclone", "keep=1", "coop=1", "burn=1"):
                 if k in o.split():
                     tags.append("arrive-" + k.replace("=1", "").replace("=", "-"))
     return tags
@@ -587,7 +951,9 @@ LEVEL_NOTE = ("Trusted: Lean kernel; the transcription of ReconnectFuture::poll 
               "variant is read off its Display text and the payload off source()). Not verified: the u32 attempt counter wrapping after 2^32 "
               "reconnections with max_attempts=None; wake-ups (observed by the waker monitor); jittered policies are exercised through "
               "ReconnectPolicy::Custom wrapping the real ExponentialRandomBackoff (the delay it returned is an observed choice checked against "
-              "the envelope).")
+              "the envelope). The texts of the scripted error kinds 4..15 are mirrored by hand in harness (kind_text), model (kindText) and "
+              "monitors (KIND_TEXT); the readiness script of the harness's strict inner service supports ready/error answers and a recovery "
+              "time, not self-waking pending answers.")
 
 SPECS = {
     "C16": {
@@ -595,7 +961,8 @@ SPECS = {
         "module": "TR.Props.C16",
         "gen": gen,
         "monitors": [("c16-calls-bounded-retry-only-reconnectable", mon_calls), ("c16-delay-is-policy", mon_delay),
-                     ("c16-first-success-or-wraps-last", mon_result), ("c16-published-state", mon_state)],
+                     ("c16-first-success-or-wraps-last", mon_result), ("c16-published-state", mon_state),
+                     ("c16-accessors-report-the-configuration", mon_accessors)],
         "transitions": transitions,
         "nontrivial": nontrivial,
         "all_transitions": ["call-first", "call-retry", "call-retry-same-instant", "dropped-calling", "result-ok-first",
@@ -606,9 +973,19 @@ SPECS = {
                             "progress-after-dropsvc", "noop-after-dropsvc", "arrival-inside-inner-destructor",
                             "arrive-via-same", "arrive-via-swap", "arrive-via-layer", "arrive-keep", "arrive-coop", "arrive-burn",
                             "error-with-causes", "cause-chain-deeper-than-one", "rejected-head-accepted-cause",
-                            "rejected-head-accepted-deep-cause", "accepted-head-rejected-cause"],
-        "model_modules": ["TR.Model.Reconnect", "TR.Lemmas.Reconnect", "TR.Lemmas.ReconnectHistory", "TR.Lemmas.ReconnectChain"],
-        "lean_files": ["TR.Model.Reconnect", "TR.Lemmas.Reconnect", "TR.Lemmas.ReconnectHistory", "TR.Lemmas.ReconnectChain"],
+                            "rejected-head-accepted-deep-cause", "accepted-head-rejected-cause",
+                            "ctor-new", "ctor-builder", "ctor-default-config", "header-cclone-1", "header-cb-1", "header-cb-panic",
+                            "header-unit-us", "header-jv-1", "pred-conn", "conn-error-accepted", "conn-error-rejected",
+                            "requests-through-several-layer-values", "probe-state-other-layer-value", "arrive-via-layerclone",
+                            "probe-attempts", "probe-incr", "probe-since", "probe-config", "probe-delay", "probe-pred",
+                            "attempts-nonzero", "incr-twice-without-success-between", "success-after-application-incremented-attempts",
+                            "probe-delay-submilli", "probe-delay-zero", "probe-pred-conn-accepts", "probe-pred-conn-rejects",
+                            "probe-config-after-dropsvc", "ready-err", "result-notready",
+                            "result-readiness-error-after-backoff", "retry-waited-for-inner-readiness"],
+        "model_modules": ["TR.Model.Reconnect", "TR.Lemmas.Reconnect", "TR.Lemmas.ReconnectHistory", "TR.Lemmas.ReconnectChain",
+                          "TR.Lemmas.ReconnectEntry"],
+        "lean_files": ["TR.Model.Reconnect", "TR.Lemmas.Reconnect", "TR.Lemmas.ReconnectHistory", "TR.Lemmas.ReconnectChain",
+                       "TR.Lemmas.ReconnectEntry"],
         "sizes": (600, 30000),
         "rule": "40 % of the cases: 2..6 requests outstanding at the same time on one shared ReconnectState (made through a dropped "
                 "clone, the same handle, the mem::replace idiom or a service made by the same layer), issue / late or missing first poll / "
@@ -622,7 +999,18 @@ SPECS = {
                 "error's own kind; heads the predicate rejects with causes it accepts, and the reverse), "
                 "max_attempts none/0/1/2/3/5, policy none/fixed/exponential/jittered/custom with delays 0..50 ms, retry_on_reconnect on/off, "
                 "predicate absent/{1}/{1,2}/{1,3}; advances biased to delay-1/delay/delay+1; distinct = distinct implementation event log; "
-                "non-trivial = at least one retry or a non-success result",
+                "non-trivial = at least one retry or a non-success result. Half of the cases are then decorated from a private random "
+                "stream (the rest are exactly the cases of the earlier rounds): construction path (ReconnectConfig::builder / "
+                "ReconnectConfigBuilder::new / only the words of the header are set, the rest left to the builder's defaults / "
+                "ReconnectConfig::default, ReconnectLayer::with_defaults, ReconnectLayer::default / the layer built from a clone of the "
+                "configuration / unlimited_attempts after max_attempts), on_reconnect and on_state_change callbacks (also panicking), "
+                "durations in microseconds (x125 .. x1001), the real ExponentialRandom variant with factor 0, pred=conn = "
+                "connection_errors_only() with error kinds 4..15 that display OS-style texts (near misses included), requests spread over "
+                "up to three layer values made from clones of one configuration value, services of a cloned layer value, probes of "
+                "attempts()/increment_attempts()/time_since_connected()/config()/policy().delay_for_attempt(n)/should_reconnect(kind) "
+                "through the layer, the service or a kept state handle between the steps, and an inner service that recovers for rec ms "
+                "after every call and answers scripted readiness polls with errors (rdy=); 15 % of the decorated cases are dedicated "
+                "readiness scenarios (Phase::Readying: the retry waits for the inner service, or ends with its readiness error)",
         "trusted": ["tokio sleep semantics as transcribed in TR.Model.Reconnect (sampled by the correspondence check)",
                     "harness: clock_gettime interposition, manual poller, scripted inner service", "python diff/monitors"],
         "assumptions": ["one poll of one call future is atomic (single-threaded runtime)", "u32 attempt counter modelled as unbounded Nat",
@@ -636,7 +1024,16 @@ SPECS = {
                       "last inner error); the published state is Connected after a success and Reconnecting while the request that last wrote it "
                       "is still handling a failure; for any number of requests sharing the state in any interleaving the published state "
                       "reads Connected exactly from a success until the next reconnectable failure is handled (a function of the order of "
-                      "completions, not of what the state read when a request was issued). The model is tied to the real ReconnectLayer by line-for-line agreement of event logs.",
+                      "completions, not of what the state read when a request was issued). Readiness of the wrapped service (any recovery time, "
+                      "any scripted poll_ready answers, set at any time): a caller that finds it not ready makes no call; after a back-off the "
+                      "call future polls it (Phase::Readying), waits while it is pending and on a readiness error returns ServiceError wrapping "
+                      "that readiness error (the last call's error is dropped, the published state untouched); a polled request is never left "
+                      "backing off past the end of its delay, nor waiting for a ready service; the result events of the log are exactly the "
+                      "requests' results. connection_errors_only() accepts exactly the errors whose lower-cased text contains one of its five "
+                      "phrases; the delay config().policy() reports is the delay waited (no floor); ReconnectConfig::default() never gives up; "
+                      "time_since_connected() is always None and attempts() counts only the application's own increments (as the code is); "
+                      "layer values made from clones of one configuration are independent instances, each with every theorem above. "
+                      "The model is tied to the real ReconnectLayer by line-for-line agreement of event logs.",
         "level_note": LEVEL_NOTE,
     },
 }
